@@ -1,19 +1,31 @@
-import DadiVerif.Lemmas.Fold
+import DadiVerif.Lemmas.FoldCore
 /-!
 # C09 — folding and ancestral misidentification conserve counts; symmetric, idempotent;
 # folding status, masks and labels survive arithmetic, slicing and likelihood evaluation
 
-Property theorems only (helper lemmas are in `Lemmas/Fold.lean`).  All statements are about the
-definitions the driver executes (`Fold.foldSpec`, `unfoldSpec`, `reverseSpec`, `applyMisid`, `binop`,
-`inplace`, `sliceSpec`, `autofold` of `Model/Fold.lean`), whose pointwise formulas (`Gen.Fold.fold_outData`,
-`fold_outMask`, `unfold_*`, `misidCoef*`, `foldingRefused`, `binop*`, `cornerFlat`, `autofold_*`, the
-method lists) are *regenerated from the current source* by tools/gen_Fold.py on every run.
+Property theorems only.  All statements are about the definitions the driver executes (`Fold.foldSpec`, `unfoldSpec`,
+`reverseSpec`, `applyMisid`, `binop`, `inplace`, `inplaceSelfAfter`, `sliceSpec`, `unarySpec`, `autofold` of `Model/Fold.lean`),
+which run what tools/gen_Fold.py *regenerates from the current source* on every run: the pointwise programs of `fold` /
+`unfold` (`Gen.Fold.fold_outData`, `fold_outMask`, …), the statement lists of the two operator templates
+(`binaryProgram`, `inplaceProgram`, executed by the interpreter `Fold.runT`), the attribute rules of the numpy subclass
+hooks (`finalize_folded`, …), `misidCoef*`, `foldingRefused`, `cornerFlat`, `autofold_*`, the method lists.
+
+Layout.  The helper lemmas of `Lemmas/FoldCore.lean` do not look into any generated definition; what they need to know about
+the translation enters as a hypothesis (`FoldDataOK`, `BinaryProgramOK`, …).  Those hypotheses are the *program theorems*
+of this file (`C09_fold_program`, `C09_fold_mask_program`, `C09_unfold_program`, `C09_unfold_mask_program`,
+`C09_fold_guards`, `C09_binary_program`, `C09_inplace_program`): each says that one translated piece of source equals its
+closed form, and is proved by unfolding *whatever intermediate definitions the translator emitted* (the generated tactics
+`fold_program_unfold` / `unfold_program_unfold`; the interpreter for the templates) — no intermediate name occurs in a proof.
+A source edit therefore breaks exactly the program theorem it falsifies and the property theorems that use it.
 
 A spectrum `S` is a C-ordered flat array with `S.N` entries of any shape (any number of populations,
 any sample sizes, even or odd total), arbitrary rational data and arbitrary mask.  For a flat index
 `k < S.N`:  `S.x k` data, `S.m k` mask, `S.mir k = S.N-1-k` the allele-swapped mirror entry,
 `S.tot k` the number of derived alleles of entry `k`, `S.T` the total sample size.
 -/
+set_option linter.unusedSimpArgs false
+set_option linter.unusedTactic false
+set_option linter.unreachableTactic false
 namespace DadiVerif
 open Fold Gen.Fold Finset
 
@@ -36,53 +48,101 @@ theorem C09_total_mirror (shape : List ℕ) (k : ℕ) (hk : k < prodL shape) :
   have := totalFlat_mirror hk
   constructor <;> omega
 
+/-! ## the translated programs of `fold` / `unfold` equal their closed forms -/
+
+/-- The translated straight-line data program of `Spectrum.fold` (`where_folded_out`, the reversed partial array, the two
+    ambiguous halves, …) computes: major-allele entries 0, ambiguous entries half of entry + mirror, minor entries
+    entry + mirror (`sfold`) — at every index of every index structure with an involutive, total-complementing mirror. -/
+theorem C09_fold_program : FoldDataOK := by
+  intro ι mirror total T x m i h
+  have h1 := h.tot; have h2 := h.le; have h3 := h.invol
+  fold_program_unfold
+  simp only [sfold, decide_eq_true_eq, beq_iff_eq, cast_eq_half_iff, h3]
+  split_ifs <;> first | (exfalso; omega) | ring
+
+/-- The translated mask program of `Spectrum.fold` (before the constructor's corner masking): entry ∨ mirror ∨ folded-out. -/
+theorem C09_fold_mask_program : FoldMaskOK := by
+  intro ι mirror total T x m i h
+  have h3 := h.invol
+  fold_program_unfold
+  simp only [fo, decide_gt_half, h3]
+  first
+    | done
+    | (cases m i <;> cases m (mirror i) <;> cases decide (2 * total i > T) <;> cases decide (2 * total (mirror i) > T) <;> rfl)
+
+/-- The translated data program of `Spectrum.unfold`: the symmetric split. -/
+theorem C09_unfold_program : UnfoldDataOK := by
+  intro ι mirror total T x m i h
+  have h3 := h.invol
+  unfold_program_unfold
+  first | done | (simp only [h3]; ring)
+
+/-- The translated mask program of `Spectrum.unfold`: `(m xor folded-out)`, or-ed with its mirror image. -/
+theorem C09_unfold_mask_program : UnfoldMaskOK := by
+  intro ι mirror total T x m i h
+  have h3 := h.invol
+  unfold_program_unfold
+  simp only [fo, decide_gt_half, h3]
+  first
+    | done
+    | (cases m i <;> cases m (mirror i) <;> cases decide (2 * total i > T) <;> cases decide (2 * total (mirror i) > T) <;> rfl)
+
+/-- The generated guards: `fold` raises `ValueError` exactly on folded spectra, `unfold` exactly on unfolded ones. -/
+theorem C09_fold_guards : GuardsOK := ⟨fun _ => rfl, rfl, fun _ => rfl, rfl⟩
+
+example : ∃ (mirror : ℕ → ℕ) (total : ℕ → ℕ), ∀ i < 4, Loc mirror total 3 i :=
+  ⟨fun i => 3 - i, fun i => i, fun i hi =>
+    ⟨by show 3 - (3 - i) = i; omega, by show 3 - i = 3 - i; rfl, by show i ≤ 3; omega⟩⟩
+
 /-! ## fold -/
 
-/-- `fold` is defined exactly on unfolded spectra (otherwise `ValueError`). -/
+/-- `fold` is defined exactly on unfolded spectra (otherwise `ValueError`); `unfold` exactly on folded ones. -/
 theorem C09_fold_guard (S : Spec) :
-    (S.folded = false → foldSpec S = .ok (foldOut S)) ∧ (S.folded = true → foldSpec S = .raise "ValueError") := by
-  rw [foldSpec_eq]; constructor <;> intro h <;> simp [h]
+    (S.folded = false → foldSpec S = .ok (foldOut S)) ∧ (S.folded = true → foldSpec S = .raise "ValueError")
+    ∧ (S.folded = true → unfoldSpec S = .ok (unfoldOut S)) ∧ (S.folded = false → unfoldSpec S = .raise "ValueError") := by
+  rw [foldSpec_eq_of S C09_fold_guards, unfoldSpec_eq_of S C09_fold_guards]
+  refine ⟨?_, ?_, ?_, ?_⟩ <;> intro h <;> simp [h]
 
 /-- Each entry and its allele-swapped mirror go to the minor-allele entry; ambiguous entries
-    (`2·tot = T`, only for even `T`) are shared equally; major-allele entries are zeroed.
-    (The generated straight-line program of `Spectrum.fold` equals this closed form.) -/
+    (`2·tot = T`, only for even `T`) are shared equally; major-allele entries are zeroed; the result is a folded spectrum
+    of the same shape with the labels of the input (constructor keywords `data_folded=True, pop_ids=self.pop_ids`). -/
 theorem C09_fold_pair (S F : Spec) (h : foldSpec S = .ok F) (k : ℕ) (hk : k < S.N) :
     F.x k = (if 2 * S.tot k > S.T then 0
              else if 2 * S.tot k = S.T then (S.x k + S.x (S.mir k)) / 2
              else S.x k + S.x (S.mir k))
     ∧ F.shape = S.shape ∧ F.folded = true ∧ F.popIds = S.popIds := by
-  rw [foldSpec_eq] at h
+  rw [foldSpec_eq_of S C09_fold_guards] at h
   split_ifs at h
   injection h with h; subst h
-  exact ⟨foldOut_x S hk, rfl, rfl, foldOut_popIds S⟩
+  exact ⟨foldOut_x_of S C09_fold_program hk, rfl, rfl, by simp [foldOut, fold_popIdsFromSelf]⟩
 
 example : ∃ S F : Spec, foldSpec S = .ok F ∧ S.N = 12 :=
   ⟨⟨[3, 4], #[], #[], false, none⟩, _, (C09_fold_guard _).1 rfl, rfl⟩
 
 /-- Folding conserves the total of the data array (all entries), for every shape, parity and data. -/
 theorem C09_fold_total (S F : Spec) (h : foldSpec S = .ok F) : sumData F = sumData S := by
-  rw [foldSpec_eq] at h
+  rw [foldSpec_eq_of S C09_fold_guards] at h
   split_ifs at h
   injection h with h; subst h
   rw [sumData_eq, sumData_eq, foldOut_N]
-  rw [Finset.sum_congr rfl (fun k hk => foldOut_x S (mem_range.mp hk))]
+  rw [Finset.sum_congr rfl (fun k hk => foldOut_x_of S C09_fold_program (mem_range.mp hk))]
   exact sfold_total S.N _ _ _ (fun k hk => S.loc hk)
 
 /-- The mask of the folded spectrum is the union of the entry's mask, its mirror's mask, the
     "folded out" region, and the two corners (the constructor's default `mask_corners`). -/
 theorem C09_fold_mask (S F : Spec) (h : foldSpec S = .ok F) (k : ℕ) (hk : k < S.N) :
     F.m k = (S.m k || S.m (S.mir k) || decide (2 * S.tot k > S.T) || (k == 0 || k == S.N - 1)) := by
-  rw [foldSpec_eq] at h
+  rw [foldSpec_eq_of S C09_fold_guards] at h
   split_ifs at h
   injection h with h; subst h
-  rw [foldOut_m S hk]; rfl
+  rw [foldOut_m_of S C09_fold_mask_program rfl hk]; rfl
 
 /-- Unmasked total: the sum over the unmasked entries of the folded spectrum is the sum of the input
     over the entries that are unmasked together with their mirror (corners counted as masked). -/
 theorem C09_fold_total_unmasked (S F : Spec) (h : foldSpec S = .ok F) :
     sumUnmasked F
       = sumUnmasked { S with mask := tabulate S.N fun k => S.m k || S.m (S.mir k) || cornerFlat S.N k } := by
-  rw [foldSpec_eq] at h
+  rw [foldSpec_eq_of S C09_fold_guards] at h
   split_ifs at h
   injection h with h; subst h
   rw [sumUnmasked_eq, sumUnmasked_eq, foldOut_N]
@@ -95,7 +155,8 @@ theorem C09_fold_total_unmasked (S F : Spec) (h : foldSpec S = .ok F) :
       = sfold (mirrorFlat S.N) (totalFlat S.shape) (totalSamples S.shape) (fun j => if u j then S.x j else 0) k := by
     intro k hk
     have hk' := mem_range.mp hk
-    rw [sfold_indicator S.x u (husym k hk'), foldOut_m S hk', foldOut_x S hk']
+    rw [sfold_indicator S.x u (husym k hk'), foldOut_m_of S C09_fold_mask_program rfl hk',
+      foldOut_x_of S C09_fold_program hk']
     simp only [hu]
     by_cases hf : fo (totalFlat S.shape) (totalSamples S.shape) k = true
     · have : sfold (mirrorFlat S.N) (totalFlat S.shape) (totalSamples S.shape) S.x k = 0 := by
@@ -143,7 +204,7 @@ example : ∃ S : Spec, (∀ k < S.N, S.m (S.mir k) = S.m k)
 
 /-- The result is unchanged if the input is first mirrored (data, mask, flags, labels: the whole record). -/
 theorem C09_fold_mirror (S : Spec) : foldSpec (reverseSpec S) = foldSpec S := by
-  rw [foldSpec_eq, foldSpec_eq]
+  rw [foldSpec_eq_of _ C09_fold_guards, foldSpec_eq_of _ C09_fold_guards]
   have hf : (reverseSpec S).folded = S.folded := rfl
   rw [hf]
   split_ifs
@@ -155,7 +216,7 @@ theorem C09_fold_mirror (S : Spec) : foldSpec (reverseSpec S) = foldSpec S := by
       intro k hk
       have hk' : k < S.N := hk
       have hl := S.loc hk'
-      rw [fold_outData_eq _ _ ((reverseSpec S).loc hk), fold_outData_eq _ _ hl]
+      rw [C09_fold_program _ _ _ _ _ _ ((reverseSpec S).loc hk), C09_fold_program _ _ _ _ _ _ hl]
       have h1 : (reverseSpec S).x k = S.x (mirrorFlat S.N k) := reverseSpec_x S hk'
       have h2 : (reverseSpec S).x (mirrorFlat S.N k) = S.x k := by
         rw [reverseSpec_x S (mirrorFlat_lt hk'), mirrorFlat_invol hk']
@@ -167,7 +228,7 @@ theorem C09_fold_mirror (S : Spec) : foldSpec (reverseSpec S) = foldSpec S := by
       apply tabulate_congr
       intro k hk
       have hk' : k < S.N := hk
-      rw [fold_outMask_eq, fold_outMask_eq]
+      rw [C09_fold_mask_program _ _ _ _ _ _ ((reverseSpec S).loc hk), C09_fold_mask_program _ _ _ _ _ _ (S.loc hk')]
       have h1 : (reverseSpec S).m k = S.m (mirrorFlat S.N k) := reverseSpec_m S hk'
       have h2 : (reverseSpec S).m (mirrorFlat S.N k) = S.m k := by
         rw [reverseSpec_m S (mirrorFlat_lt hk'), mirrorFlat_invol hk']
@@ -192,43 +253,36 @@ theorem C09_fold_pure (S : Spec) :
     ∧ (foldSelfAfter S).shape = S.shape ∧ (foldSelfAfter S).folded = S.folded ∧ (foldSelfAfter S).popIds = S.popIds
     ∧ (unfoldSelfAfter S).shape = S.shape ∧ (unfoldSelfAfter S).folded = S.folded ∧ (unfoldSelfAfter S).popIds = S.popIds
     ∧ fold_outSharesSelf = false ∧ unfold_outSharesSelf = false := by
+  have hself : SelfAfterOK := by
+    intro ι mirror total T x m i
+    refine ⟨?_, ?_, ?_, ?_⟩
+    · first | rfl | fold_program_unfold
+    · first | rfl | fold_program_unfold
+    · first | rfl | unfold_program_unfold
+    · first | rfl | unfold_program_unfold
   refine ⟨fun k hk => ⟨?_, ?_, ?_, ?_⟩, ?_, ?_, ?_, ?_, ?_, ?_, by decide, by decide⟩
   · unfold foldSelfAfter; split_ifs
     · rfl
     · show (tabulate S.N _).getD k _ = _
-      rw [tabulate_getD _ _ _ hk]; rfl
+      rw [tabulate_getD _ _ _ hk]; exact (hself _ _ _ _ _ _).1
   · unfold foldSelfAfter; split_ifs
     · rfl
     · show (tabulate S.N _).getD k _ = _
-      rw [tabulate_getD _ _ _ hk]; rfl
+      rw [tabulate_getD _ _ _ hk]; exact (hself _ _ _ _ _ _).2.1
   · unfold unfoldSelfAfter; split_ifs
     · rfl
     · show (tabulate S.N _).getD k _ = _
-      rw [tabulate_getD _ _ _ hk]; rfl
+      rw [tabulate_getD _ _ _ hk]; exact (hself _ _ _ _ _ _).2.2.1
   · unfold unfoldSelfAfter; split_ifs
     · rfl
     · show (tabulate S.N _).getD k _ = _
-      rw [tabulate_getD _ _ _ hk]; rfl
+      rw [tabulate_getD _ _ _ hk]; exact (hself _ _ _ _ _ _).2.2.2
   all_goals first | (unfold foldSelfAfter; split_ifs <;> rfl) | (unfold unfoldSelfAfter; split_ifs <;> rfl)
 
 /-- …as whole records, for a well-formed spectrum (arrays as long as the shape says). -/
 theorem C09_fold_pure_record (S : Spec) (hd : S.data.size = S.N) (hm : S.mask.size = S.N) :
     foldSelfAfter S = S ∧ unfoldSelfAfter S = S := by
   obtain ⟨hk, h1, h2, h3, h4, h5, h6, _, _⟩ := C09_fold_pure S
-  have key : ∀ A : Spec, A.data.size = S.N → A.mask.size = S.N → (∀ k < S.N, A.x k = S.x k ∧ A.m k = S.m k) →
-      A.shape = S.shape → A.folded = S.folded → A.popIds = S.popIds → A = S := by
-    intro A had ham hx hs hf hp
-    apply spec_eq_of hs ?_ ?_ hf hp
-    · apply Array.ext (by rw [had, hd])
-      intro k h1 h2
-      have hkN : k < S.N := by rw [← had]; exact h1
-      have := (hx k hkN).1
-      simpa [Spec.x, Array.getD, h1, h2] using this
-    · apply Array.ext (by rw [ham, hm])
-      intro k h1 h2
-      have hkN : k < S.N := by rw [← ham]; exact h1
-      have := (hx k hkN).2
-      simpa [Spec.m, Array.getD, h1, h2] using this
   have sz : ∀ (A : Spec), (A = S ∨ (A.data.size = S.N ∧ A.mask.size = S.N)) → A.data.size = S.N ∧ A.mask.size = S.N := by
     rintro A (rfl | h)
     · exact ⟨hd, hm⟩
@@ -241,8 +295,8 @@ theorem C09_fold_pure_record (S : Spec) (hd : S.data.size = S.N) (hm : S.mask.si
     unfold unfoldSelfAfter; split_ifs
     · exact Or.inl rfl
     · exact Or.inr ⟨tabulate_size _ _, tabulate_size _ _⟩)
-  exact ⟨key _ hF.1 hF.2 (fun k h => ⟨(hk k h).1, (hk k h).2.1⟩) h1 h2 h3,
-         key _ hU.1 hU.2 (fun k h => ⟨(hk k h).2.2.1, (hk k h).2.2.2⟩) h4 h5 h6⟩
+  exact ⟨spec_ext h1 hF.1 hF.2 hd hm (fun k h => ⟨(hk k h).1, (hk k h).2.1⟩) h2 h3,
+         spec_ext h4 hU.1 hU.2 hd hm (fun k h => ⟨(hk k h).2.2.1, (hk k h).2.2.2⟩) h5 h6⟩
 
 /-- non-vacuity: a 2×3 spectrum with a mask that is not mirror-symmetric (entry (0,1) masked, its mirror (1,1) not) -/
 example : ∃ S : Spec, S.data.size = S.N ∧ S.mask.size = S.N ∧ S.m 1 = true ∧ S.m (S.mir 1) = false
@@ -270,69 +324,70 @@ theorem C09_unfold_sym (F U : Spec) (h : unfoldSpec F = .ok U) :
     F.folded = true ∧ U.folded = false ∧ U.popIds = F.popIds ∧ U.shape = F.shape
     ∧ (∀ k < F.N, U.x k = (F.x k + F.x (F.mir k)) / 2 ∧ U.x (F.mir k) = U.x k ∧ U.m (F.mir k) = U.m k)
     ∧ sumData U = sumData F := by
-  rw [unfoldSpec_eq] at h
+  rw [unfoldSpec_eq_of F C09_fold_guards] at h
   split_ifs at h with hf
   injection h with h; subst h
-  refine ⟨hf, rfl, unfoldOut_popIds F, rfl, ?_, ?_⟩
+  have hx := fun {k : ℕ} (hk : k < F.N) => unfoldOut_x_of F C09_unfold_program hk
+  have hm := fun {k : ℕ} (hk : k < F.N) => unfoldOut_m_of F C09_unfold_mask_program rfl hk
+  refine ⟨hf, rfl, by simp [unfoldOut, unfold_popIdsFromSelf], rfl, ?_, ?_⟩
   · intro k hk
     have hk2 := mirrorFlat_lt hk
-    refine ⟨unfoldOut_x F hk, ?_, ?_⟩
-    · rw [unfoldOut_x F hk2, unfoldOut_x F hk, mirrorFlat_invol hk]; ring
-    · rw [unfoldOut_m F hk2, unfoldOut_m F hk, mirrorFlat_invol hk, cornerFlat_mirror hk]
+    refine ⟨hx hk, ?_, ?_⟩
+    · rw [hx hk2, hx hk, mirrorFlat_invol hk]; ring
+    · rw [hm hk2, hm hk, mirrorFlat_invol hk, cornerFlat_mirror hk]
       cases F.m k <;> cases F.m (mirrorFlat F.N k) <;>
         cases fo (totalFlat F.shape) (totalSamples F.shape) k <;>
         cases fo (totalFlat F.shape) (totalSamples F.shape) (mirrorFlat F.N k) <;> rfl
   · rw [sumData_eq, sumData_eq, unfoldOut_N]
-    rw [Finset.sum_congr rfl (fun k hk => unfoldOut_x F (mem_range.mp hk))]
+    rw [Finset.sum_congr rfl (fun k hk => hx (mem_range.mp hk))]
     rw [← Finset.sum_div, Finset.sum_add_distrib, sum_reflect F.x F.N]
     ring
 
 example : ∃ F U : Spec, unfoldSpec F = .ok U :=
-  ⟨⟨[3, 4], #[], #[], true, none⟩, _, by rw [unfoldSpec_eq]; rfl⟩
+  ⟨⟨[3, 4], #[], #[], true, none⟩, _, (C09_fold_guard _).2.2.1 rfl⟩
 
 /-- fold(unfold(fold(x))) = fold(x): the whole record — data on every entry (masked or not), the mask
     (the xor/or algebra of `unfold`, both corner maskings included), folding flag, labels, shape —
     for every shape (even and odd total sample size), all data and all mask patterns. -/
 theorem C09_fuf (S : Spec) (hS : S.folded = false) :
     ∃ F U, foldSpec S = .ok F ∧ unfoldSpec F = .ok U ∧ foldSpec U = .ok F := by
-  refine ⟨foldOut S, unfoldOut (foldOut S), (C09_fold_guard S).1 hS, ?_, ?_⟩
-  · rw [unfoldSpec_eq]; rfl
-  · rw [(C09_fold_guard _).1 (unfoldOut_folded _)]
-    congr 1
-    apply spec_eq_of
-    · rfl
-    · apply tabulate_congr
-      intro k hk
-      have hk' : k < S.N := hk
-      have hk2 := mirrorFlat_lt hk'
-      have hl := S.loc hk'
-      have hU : ∀ j < S.N, (unfoldOut (foldOut S)).x j
+  have hFx := fun (A : Spec) {k : ℕ} (hk : k < A.N) => foldOut_x_of A C09_fold_program hk
+  have hFm := fun (A : Spec) {k : ℕ} (hk : k < A.N) => foldOut_m_of A C09_fold_mask_program rfl hk
+  have hUx := fun (A : Spec) {k : ℕ} (hk : k < A.N) => unfoldOut_x_of A C09_unfold_program hk
+  have hUm := fun (A : Spec) {k : ℕ} (hk : k < A.N) => unfoldOut_m_of A C09_unfold_mask_program rfl hk
+  have hFf : ∀ A : Spec, (foldOut A).folded = true := fun _ => rfl
+  have hUf : ∀ A : Spec, (unfoldOut A).folded = false := fun _ => rfl
+  have hUp : ∀ A : Spec, (unfoldOut A).popIds = A.popIds := fun A => by simp [unfoldOut, unfold_popIdsFromSelf]
+  have hFp : ∀ A : Spec, (foldOut A).popIds = A.popIds := fun A => by simp [foldOut, fold_popIdsFromSelf]
+  refine ⟨foldOut S, unfoldOut (foldOut S), (C09_fold_guard S).1 hS, (C09_fold_guard _).2.2.1 (hFf S), ?_⟩
+  rw [(C09_fold_guard _).1 (hUf _)]
+  congr 1
+  have hN : (unfoldOut (foldOut S)).N = S.N := rfl
+  refine spec_ext (A := foldOut (unfoldOut (foldOut S))) (B := foldOut S) rfl ?_ ?_ ?_ ?_ ?_ rfl ?_
+  · exact tabulate_size _ _
+  · exact tabulate_size _ _
+  · exact tabulate_size _ _
+  · exact tabulate_size _ _
+  · intro k hk
+    have hk' : k < S.N := hk
+    have hk2 := mirrorFlat_lt hk'
+    have hl := S.loc hk'
+    constructor
+    · have hU : ∀ j < S.N, (unfoldOut (foldOut S)).x j
           = (sfold (mirrorFlat S.N) (totalFlat S.shape) (totalSamples S.shape) S.x j
              + sfold (mirrorFlat S.N) (totalFlat S.shape) (totalSamples S.shape) S.x (mirrorFlat S.N j)) / 2 := by
         intro j hj
-        rw [unfoldOut_x (foldOut S) hj]
+        rw [hUx (foldOut S) hj]
         show ((foldOut S).x j + (foldOut S).x (mirrorFlat S.N j)) / 2 = _
-        rw [foldOut_x S hj, foldOut_x S (mirrorFlat_lt hj)]
-      have e1 := fold_outData_eq (unfoldOut (foldOut S)).x (unfoldOut (foldOut S)).m hl
-      have e2 := fold_outData_eq S.x S.m hl
-      show fold_outData (mirrorFlat S.N) (totalFlat S.shape) (totalSamples S.shape) _ _ k = _
-      rw [e1, e2, ← sfold_unfold_sfold S.x hl]
+        rw [hFx S hj, hFx S (mirrorFlat_lt hj)]
+      rw [hFx (unfoldOut (foldOut S)) hk', hFx S hk']
+      show sfold (mirrorFlat S.N) (totalFlat S.shape) (totalSamples S.shape) _ k = _
+      rw [← sfold_unfold_sfold S.x hl]
       exact sfold_congr (hU k hk') (hU _ hk2)
-    · rw [foldOut_mask, foldOut_mask]
-      apply tabulate_congr
-      intro k hk
-      have hk' : k < S.N := hk
-      have hk2 := mirrorFlat_lt hk'
-      have hl := S.loc hk'
-      have hc := cornerFlat_mirror hk'
+    · have hc := cornerFlat_mirror hk'
       have key := mask_fuf S.m hl (cornerFlat S.N) hc
       simp only at key
-      show (fold_outMask (mirrorFlat S.N) (totalFlat S.shape) (totalSamples S.shape) _ (unfoldOut (foldOut S)).m k
-            || (fold_maskCorners && cornerFlat S.N k))
-          = (fold_outMask (mirrorFlat S.N) (totalFlat S.shape) (totalSamples S.shape) _ S.m k
-            || (fold_maskCorners && cornerFlat S.N k))
-      rw [fold_outMask_eq, fold_outMask_eq]
-      have hUm : ∀ j < S.N, (unfoldOut (foldOut S)).m j
+      have hUm' : ∀ j < S.N, (unfoldOut (foldOut S)).m j
           = (((S.m j || S.m (mirrorFlat S.N j) || fo (totalFlat S.shape) (totalSamples S.shape) j || cornerFlat S.N j)
                 ^^ fo (totalFlat S.shape) (totalSamples S.shape) j)
              || ((S.m (mirrorFlat S.N j) || S.m (mirrorFlat S.N (mirrorFlat S.N j))
@@ -340,29 +395,355 @@ theorem C09_fuf (S : Spec) (hS : S.folded = false) :
                 ^^ fo (totalFlat S.shape) (totalSamples S.shape) (mirrorFlat S.N j))
              || cornerFlat S.N j) := by
         intro j hj
-        rw [unfoldOut_m (foldOut S) hj]
+        rw [hUm (foldOut S) hj]
         show (((foldOut S).m j ^^ _) || ((foldOut S).m (mirrorFlat S.N j) ^^ _) || _) = _
-        rw [foldOut_m S hj, foldOut_m S (mirrorFlat_lt hj)]
+        rw [hFm S hj, hFm S (mirrorFlat_lt hj)]
         rfl
-      rw [hUm k hk', hUm _ hk2]
-      simp only [mirrorFlat_invol hk', hc, fold_maskCorners, Bool.true_and] at key ⊢
+      rw [hFm (unfoldOut (foldOut S)) hk', hFm S hk']
+      show ((unfoldOut (foldOut S)).m k || (unfoldOut (foldOut S)).m (mirrorFlat S.N k)
+            || fo (totalFlat S.shape) (totalSamples S.shape) k || cornerFlat S.N k) = _
+      rw [hUm' k hk', hUm' _ hk2]
+      simp only [mirrorFlat_invol hk', hc] at key ⊢
       rw [← key]
       cases S.m k <;> cases S.m (mirrorFlat S.N k) <;> cases cornerFlat S.N k <;>
         cases fo (totalFlat S.shape) (totalSamples S.shape) k <;>
         cases fo (totalFlat S.shape) (totalSamples S.shape) (mirrorFlat S.N k) <;> rfl
+  · rw [hFp, hUp, hFp]
+
+/-! ## arithmetic templates: the translated statement lists; refusal of mixed folding; folding status, masks, labels survive -/
+
+/-- The generated method lists are exactly the Python-3 arithmetic operators — normal, reflected and in-place form of
+    `+ - * / // **` — plus the three Python-2 division names, which are exactly the names an ndarray does not have;
+    no name occurs twice, and every name has a meaning in `methodOf`. -/
+theorem C09_methods :
+    (∀ n ∈ ["__add__", "__radd__", "__sub__", "__rsub__", "__mul__", "__rmul__", "__truediv__", "__rtruediv__",
+            "__floordiv__", "__rfloordiv__", "__pow__", "__rpow__"], n ∈ binaryMethods ∧ n ∉ ndarrayLacks ∧ (methodOf n).isSome)
+    ∧ (∀ n ∈ ["__iadd__", "__isub__", "__imul__", "__itruediv__", "__ifloordiv__", "__ipow__"],
+         n ∈ inplaceMethods ∧ n ∉ ndarrayLacks ∧ (methodOf n).isSome)
+    ∧ (∀ n ∈ binaryMethods, n ∈ ["__add__", "__radd__", "__sub__", "__rsub__", "__mul__", "__rmul__", "__truediv__", "__rtruediv__",
+            "__floordiv__", "__rfloordiv__", "__pow__", "__rpow__"] ∨ n ∈ ["__div__", "__rdiv__"])
+    ∧ (∀ n ∈ inplaceMethods, n ∈ ["__iadd__", "__isub__", "__imul__", "__itruediv__", "__ifloordiv__", "__ipow__"] ∨ n = "__idiv__")
+    ∧ (∀ n ∈ binaryMethods ++ inplaceMethods, n ∈ ndarrayLacks ↔ n ∈ ["__div__", "__rdiv__", "__idiv__"])
+    ∧ (binaryMethods ++ inplaceMethods).Nodup
+    ∧ (∀ n ∈ binaryMethods ++ inplaceMethods, (methodOf n).isSome) := by
+  decide
+
+/-- **The binary template, executed statement by statement** (`binaryProgram`, translated from the source, run by `runT`)
+    for every method name, every spectrum and every kind of operand — Spectrum, masked array, ndarray, scalar — is the
+    closed form `binopClosed`: the folding check on `other` comes first; then the forwarded ndarray method works on the
+    DATA arrays of both operands (`other.data` for masked operands), entries under a mask included; the mask is
+    `mask_or(self.mask, other.mask)` for masked operands and `self.mask` otherwise; the constructor adds no corner
+    masking, keeps `self.folded`, and takes the labels of `self`, or of `other` if `self` has none. -/
+theorem C09_binary_program : BinaryProgramOK := by
+  intro name S o
+  unfold binop binopClosed guards
+  by_cases hn : name ∈ binaryMethods
+  swap
+  · simp [hn]
+  have hc : binaryMethods.contains name = true := by simpa using hn
+  have fin : ∀ (d : Array ℚ) (f : ℕ → Bool) (oF : Bool) (oi : Option (List String)),
+      (⟨S.shape, d, tabulate S.N fun k => (tabulate S.N f).getD k false || (binopMaskCorners && cornerFlat S.N k),
+        binopFolded S.folded oF, binopPopIds S.popIds oi⟩ : Spec)
+      = ⟨S.shape, d, tabulate S.N f, S.folded, S.popIds.orElse fun _ => oi⟩ := by
+    intro d f oF oi
+    rw [tabulate_getD_or]
+    refine spec_eq_of rfl rfl ?_ ?_ ?_
+    · dsimp only
+      apply tabulate_congr; intro k _; simp [binopMaskCorners]
     · rfl
-    · show (if fold_popIdsFromSelf then (unfoldOut (foldOut S)).popIds else none) = (foldOut S).popIds
-      rw [unfoldOut_popIds]; simp [fold_popIdsFromSelf]
+    · show binopPopIds S.popIds oi = _
+      unfold binopPopIds; cases S.popIds <;> cases oi <;> simp
+  have fin' : ∀ (d : Array ℚ) (f : ℕ → Bool) (oF : Bool),
+      (⟨S.shape, d, tabulate S.N fun k => (tabulate S.N f).getD k false || (binopMaskCorners && cornerFlat S.N k),
+        binopFolded S.folded oF, S.popIds⟩ : Spec)
+      = ⟨S.shape, d, tabulate S.N f, S.folded, S.popIds.orElse fun _ => none⟩ := by
+    intro d f oF
+    rw [tabulate_getD_or]
+    refine spec_eq_of rfl rfl ?_ ?_ ?_
+    · dsimp only
+      apply tabulate_congr; intro k _; simp [binopMaskCorners]
+    · rfl
+    · show S.popIds = _
+      cases S.popIds <;> rfl
+  cases o with
+  | spectrum O =>
+    by_cases hr : foldingRefused true S.folded O.folded = true
+    · run_template [hc, hr, binaryProgram]
+    by_cases hl : ndarrayLacks.contains name = true
+    · run_template [hc, hr, hl, binaryProgram]
+    by_cases hf : (O.data.size == S.N) = true
+    swap
+    · run_template [hc, hr, hl, hf, binaryProgram]
+    cases hM : methodOf name with
+    | none => run_template [hc, hr, hl, hf, hM, binaryProgram]
+    | some M =>
+      by_cases hd : arithDefined M S (.plain O.data) = true
+      swap
+      · run_template [hc, hr, hl, hf, hM, hd, binaryProgram]
+      run_template [hc, hr, hl, hf, hM, hd, binaryProgram]
+      rw [fin]; rfl
+  | masked d mk =>
+    by_cases hr : foldingRefused false S.folded false = true
+    · run_template [hc, hr, binaryProgram]
+    by_cases hl : ndarrayLacks.contains name = true
+    · run_template [hc, hr, hl, binaryProgram]
+    by_cases hf : (d.size == S.N) = true
+    swap
+    · run_template [hc, hr, hl, hf, binaryProgram]
+    cases hM : methodOf name with
+    | none => run_template [hc, hr, hl, hf, hM, binaryProgram]
+    | some M =>
+      by_cases hd : arithDefined M S (.plain d) = true
+      swap
+      · run_template [hc, hr, hl, hf, hM, hd, binaryProgram]
+      run_template [hc, hr, hl, hf, hM, hd, binaryProgram]
+      rw [fin']; rfl
+  | plain d =>
+    by_cases hr : foldingRefused false S.folded false = true
+    · run_template [hc, hr, binaryProgram]
+    by_cases hl : ndarrayLacks.contains name = true
+    · run_template [hc, hr, hl, binaryProgram]
+    by_cases hf : (d.size == S.N) = true
+    swap
+    · run_template [hc, hr, hl, hf, binaryProgram]
+    cases hM : methodOf name with
+    | none => run_template [hc, hr, hl, hf, hM, binaryProgram]
+    | some M =>
+      by_cases hd : arithDefined M S (.plain d) = true
+      swap
+      · run_template [hc, hr, hl, hf, hM, hd, binaryProgram]
+      run_template [hc, hr, hl, hf, hM, hd, binaryProgram]
+      rw [fin']
+      refine congrArg Res.ok (spec_eq_of rfl rfl ?_ rfl rfl)
+      dsimp only [binOut]
+      apply tabulate_congr; intro k _; simp [Operand.maskAt]
+  | scalar c =>
+    by_cases hr : foldingRefused false S.folded false = true
+    · run_template [hc, hr, binaryProgram]
+    by_cases hl : ndarrayLacks.contains name = true
+    · run_template [hc, hr, hl, binaryProgram]
+    cases hM : methodOf name with
+    | none => run_template [hc, hr, hl, hM, binaryProgram]
+    | some M =>
+      by_cases hd : arithDefined M S (.scalar c) = true
+      swap
+      · run_template [hc, hr, hl, hM, hd, binaryProgram]
+      run_template [hc, hr, hl, hM, hd, binaryProgram]
+      rw [fin']
+      refine congrArg Res.ok (spec_eq_of rfl rfl ?_ rfl rfl)
+      dsimp only [binOut]
+      apply tabulate_congr; intro k _; simp [Operand.maskAt]
+
+/-- **The in-place template, executed statement by statement** (`inplaceProgram`), is the closed form `inplaceClosed` for
+    every method name, spectrum and kind of operand: folding check on `other` FIRST; then `self.data.<op>(other.data)` /
+    `self.data.<op>(other)` on the data arrays, entries under a mask included; `self.mask = mask_or(self.mask, other.mask)`
+    for masked operands only; shape, folding status and labels of `self` are not touched.  A call that raises has executed
+    no statement that changes `self` (`inplaceSelfAfter … = some S`), and what a call that returns leaves in `self` is
+    what it returns. -/
+theorem C09_inplace_program : InplaceProgramOK := by
+  intro name S o
+  unfold inplace inplaceSelfAfter inplaceClosed guards
+  by_cases hn : name ∈ inplaceMethods
+  swap
+  · simp [hn]
+  have hc : inplaceMethods.contains name = true := by simpa using hn
+  have hs : inplaceShapeOk = true := rfl
+  cases o with
+  | spectrum O =>
+    by_cases hr : foldingRefused true S.folded O.folded = true
+    · run_template [hc, hs, hr, inplaceProgram]
+      simp
+    by_cases hl : ndarrayLacks.contains name = true
+    · run_template [hc, hs, hr, hl, inplaceProgram]
+      simp
+    by_cases hf : (O.data.size == S.N) = true
+    swap
+    · run_template [hc, hs, hr, hl, hf, inplaceProgram]
+      simp
+    cases hM : methodOf name with
+    | none =>
+      run_template [hc, hs, hr, hl, hf, hM, inplaceProgram]
+      simp
+    | some M =>
+      by_cases hd : arithDefined M S (.plain O.data) = true
+      swap
+      · run_template [hc, hs, hr, hl, hf, hM, hd, inplaceProgram]
+        simp
+      run_template [hc, hs, hr, hl, hf, hM, hd, inplaceProgram]
+      simp only [inplaceOut, Operand.isMasked, Operand.maskAt, Operand.dataAt, if_true, if_false, Bool.false_eq_true]
+      refine ⟨by first | trivial | rfl, by simp, ?_⟩
+      intro R hR
+      injection hR with hR
+      subst hR
+      rfl
+  | masked d mk =>
+    by_cases hr : foldingRefused false S.folded false = true
+    · run_template [hc, hs, hr, inplaceProgram]
+      simp
+    by_cases hl : ndarrayLacks.contains name = true
+    · run_template [hc, hs, hr, hl, inplaceProgram]
+      simp
+    by_cases hf : (d.size == S.N) = true
+    swap
+    · run_template [hc, hs, hr, hl, hf, inplaceProgram]
+      simp
+    cases hM : methodOf name with
+    | none =>
+      run_template [hc, hs, hr, hl, hf, hM, inplaceProgram]
+      simp
+    | some M =>
+      by_cases hd : arithDefined M S (.plain d) = true
+      swap
+      · run_template [hc, hs, hr, hl, hf, hM, hd, inplaceProgram]
+        simp
+      run_template [hc, hs, hr, hl, hf, hM, hd, inplaceProgram]
+      simp only [inplaceOut, Operand.isMasked, Operand.maskAt, Operand.dataAt, if_true, if_false, Bool.false_eq_true]
+      refine ⟨by first | trivial | rfl, by simp, ?_⟩
+      intro R hR
+      injection hR with hR
+      subst hR
+      rfl
+  | plain d =>
+    by_cases hr : foldingRefused false S.folded false = true
+    · run_template [hc, hs, hr, inplaceProgram]
+      simp
+    by_cases hl : ndarrayLacks.contains name = true
+    · run_template [hc, hs, hr, hl, inplaceProgram]
+      simp
+    by_cases hf : (d.size == S.N) = true
+    swap
+    · run_template [hc, hs, hr, hl, hf, inplaceProgram]
+      simp
+    cases hM : methodOf name with
+    | none =>
+      run_template [hc, hs, hr, hl, hf, hM, inplaceProgram]
+      simp
+    | some M =>
+      by_cases hd : arithDefined M S (.plain d) = true
+      swap
+      · run_template [hc, hs, hr, hl, hf, hM, hd, inplaceProgram]
+        simp
+      run_template [hc, hs, hr, hl, hf, hM, hd, inplaceProgram]
+      simp only [inplaceOut, Operand.isMasked, Operand.maskAt, Operand.dataAt, if_true, if_false, Bool.false_eq_true]
+      refine ⟨by first | trivial | rfl, by simp, ?_⟩
+      intro R hR
+      injection hR with hR
+      subst hR
+      rfl
+  | scalar c =>
+    by_cases hr : foldingRefused false S.folded false = true
+    · run_template [hc, hs, hr, inplaceProgram]
+      simp
+    by_cases hl : ndarrayLacks.contains name = true
+    · run_template [hc, hs, hr, hl, inplaceProgram]
+      simp
+    cases hM : methodOf name with
+    | none =>
+      run_template [hc, hs, hr, hl,  hM, inplaceProgram]
+      simp
+    | some M =>
+      by_cases hd : arithDefined M S (.scalar c) = true
+      swap
+      · run_template [hc, hs, hr, hl,  hM, hd, inplaceProgram]
+        simp
+      run_template [hc, hs, hr, hl,  hM, hd, inplaceProgram]
+      simp only [inplaceOut, Operand.isMasked, Operand.maskAt, Operand.dataAt, if_true, if_false, Bool.false_eq_true]
+      refine ⟨by first | trivial | rfl, by simp, ?_⟩
+      intro R hR
+      injection hR with hR
+      subst hR
+      rfl
+
+/-- Arithmetic between a folded and an unfolded Spectrum is refused (`ValueError`) by every binary and every in-place
+    template — for every name in the generated method lists —, before anything is computed or modified: the spectrum an
+    in-place operator was applied to is afterwards exactly what it was (data under the mask, mask, flags, labels). -/
+theorem C09_arith_refused (name : String) (S O : Spec) (hne : S.folded ≠ O.folded) :
+    (name ∈ binaryMethods → binop name S (.spectrum O) = .raise "ValueError")
+    ∧ (name ∈ inplaceMethods → inplace name S (.spectrum O) = .raise "ValueError"
+                               ∧ inplaceSelfAfter name S (.spectrum O) = some S) := by
+  have hr : foldingRefused (Operand.spectrum O).isSpectrum S.folded (Operand.spectrum O).folded = true := by
+    simp only [foldingRefused, Operand.isSpectrum, Operand.folded, Bool.true_and]
+    cases hs : S.folded <;> cases ho : O.folded <;> simp_all
+  constructor <;> intro hn
+  · rw [C09_binary_program]
+    unfold binopClosed guards
+    simp [hn, hr, foldingRefusedWhat]
+  · obtain ⟨h1, h2, _⟩ := C09_inplace_program name S (.spectrum O)
+    have hcl : inplaceClosed name S (.spectrum O) = .raise "ValueError" := by
+      unfold inplaceClosed guards
+      simp [hn, hr, foldingRefusedWhat]
+    exact ⟨h1.trans hcl, h2 _ hcl⟩
+
+example : ∃ S O : Spec, S.folded ≠ O.folded := ⟨⟨[2], #[1, 2], #[false, false], false, none⟩, ⟨[2], #[1, 2], #[false, false], true, none⟩, by decide⟩
+
+/-- Whenever a binary template returns, the two operands had the same folding status (if both are
+    Spectra), the data is the pointwise operation on the operands' *data* — every entry, masked or not, for a Spectrum,
+    a masked array (`other.data`), an ndarray and a scalar alike —, the mask is the union of the operands' masks (an
+    ndarray or scalar has none: the mask of `self`; no corner masking), folding status and shape are those of
+    `self`, labels are those of `self`, or of the other operand if `self` has none. -/
+theorem C09_arith_keeps (name : String) (S R : Spec) (o : Operand) (h : binop name S o = .ok R) :
+    ∃ M, methodOf name = some M ∧ name ∈ binaryMethods
+      ∧ (o.isSpectrum = true → o.folded = S.folded)
+      ∧ (∀ k < S.N, arith M (S.x k) (o.dataAt k) = some (R.x k) ∧ R.m k = (S.m k || o.maskAt k))
+      ∧ (o.isMasked = false → ∀ k < S.N, R.m k = S.m k)
+      ∧ R.folded = S.folded ∧ R.shape = S.shape ∧ R.popIds = S.popIds.orElse fun _ => o.popIds := by
+  rw [C09_binary_program] at h
+  obtain ⟨M, hM, hg, hd, rfl⟩ := binopClosed_ok h
+  obtain ⟨hmem, hfr, _, _⟩ := guards_none hg
+  refine ⟨M, hM, hmem, ?_, fun k hk => ⟨binOut_x hd hk, binOut_m hk⟩, ?_, rfl, rfl, rfl⟩
+  · intro hs
+    simp only [foldingRefused, hs, Bool.true_and] at hfr
+    simpa using hfr
+  · intro hm k hk
+    rw [binOut_m hk]
+    cases o <;> simp_all [Operand.isMasked, Operand.maskAt]
+
+/-- The binary templates construct their result with `copy=True`: the new Spectrum owns its data and mask buffers.
+    (Only this constructor flag is tied by translation; that no buffer is shared in fact — result vs operands, both
+    directions, after later masking — is checked on the implementation by L3, aliasing is not part of the value-level model.) -/
+theorem C09_arith_fresh : binopCopies = true := by decide
+
+/-- The same for the in-place templates; shape, folding status and labels of `self` are untouched, and the returned
+    spectrum is `self` as the call left it. -/
+theorem C09_inplace_keeps (name : String) (S R : Spec) (o : Operand) (h : inplace name S o = .ok R) :
+    ∃ M, methodOf name = some M ∧ name ∈ inplaceMethods
+      ∧ (o.isSpectrum = true → o.folded = S.folded)
+      ∧ (∀ k < S.N, arith M (S.x k) (o.dataAt k) = some (R.x k) ∧ R.m k = (S.m k || o.maskAt k))
+      ∧ (o.isMasked = false → R.mask = S.mask)
+      ∧ R.folded = S.folded ∧ R.shape = S.shape ∧ R.popIds = S.popIds
+      ∧ inplaceSelfAfter name S o = some R := by
+  obtain ⟨h1, _, h3⟩ := C09_inplace_program name S o
+  rw [h1] at h
+  have hself := h3 R h
+  obtain ⟨M, hM, hg, hd, rfl⟩ := inplaceClosed_ok h
+  obtain ⟨hmem, hfr, _, _⟩ := guards_none hg
+  refine ⟨M, hM, hmem, ?_, fun k hk => ⟨inplaceOut_x hd hk, inplaceOut_m hk⟩, ?_, rfl, rfl, rfl, hself⟩
+  · intro hs
+    simp only [foldingRefused, hs, Bool.true_and] at hfr
+    simpa using hfr
+  · intro hm
+    simp [inplaceOut, hm]
+
+example : ∃ S : Spec, binop "__add__" S (.scalar 1) = .ok (binOut ⟨.add, false⟩ S (.scalar 1))
+    ∧ inplace "__imul__" S (.scalar 2) = .ok (inplaceOut ⟨.mul, false⟩ S (.scalar 2)) :=
+  ⟨⟨[2], #[1, 2], #[false, true], true, some ["a"]⟩,
+   (C09_binary_program _ _ _).trans (binopClosed_eq_ok (by decide) (by simp [foldingRefused, Operand.isSpectrum]) (by decide) rfl rfl
+     (arithDefined_ring _ _ _ (Or.inl rfl))),
+   (C09_inplace_program _ _ _).1.trans (inplaceClosed_eq_ok (by decide) (by simp [foldingRefused, Operand.isSpectrum]) (by decide) rfl rfl
+     (arithDefined_ring _ _ _ (Or.inr (Or.inr rfl))))⟩
 
 /-! ## ancestral misidentification -/
 
-/-- `apply_anc_state_misid(fs, p)` is always defined; its data is the convex mix
-    `(1−p)·x + p·mirror x` on every entry, its mask the union of mask and mirrored mask;
-    shape, folding flag and labels are those of the input; for every rational `p`. -/
+/-- `apply_anc_state_misid(fs, p)` — `A*fs + B*reverse_array(fs)` with the generated coefficients, evaluated with the
+    translated templates (`__rmul__` twice, then `__add__`) — is always defined and is the closed form `misidOut S p`: its data is
+    the convex mix `(1−p)·x + p·mirror x` on every entry, its mask the union of mask and mirrored mask; shape, folding flag
+    and labels are those of the input; for every rational `p`. -/
 theorem C09_misid (S : Spec) (p : ℚ) :
-    ∃ R, applyMisid S p = .ok R
-      ∧ (∀ k < S.N, R.x k = (1 - p) * S.x k + p * S.x (S.mir k) ∧ R.m k = (S.m k || S.m (S.mir k)))
-      ∧ R.shape = S.shape ∧ R.folded = S.folded ∧ R.popIds = S.popIds := by
+    applyMisid S p = .ok (misidOut S p)
+      ∧ (∀ k < S.N, (misidOut S p).x k = (1 - p) * S.x k + p * S.x (S.mir k)
+                  ∧ (misidOut S p).m k = (S.m k || S.m (S.mir k)))
+      ∧ (misidOut S p).shape = S.shape ∧ (misidOut S p).folded = S.folded ∧ (misidOut S p).popIds = S.popIds := by
+  refine ⟨?_, fun k hk => ⟨misidOut_x S p hk, misidOut_m S p hk⟩, rfl, rfl, rfl⟩
   have hmem1 : "__rmul__" ∈ binaryMethods := by decide
   have hmem2 : "__add__" ∈ binaryMethods := by decide
   have hl1 : "__rmul__" ∉ ndarrayLacks := by decide
@@ -370,56 +751,33 @@ theorem C09_misid (S : Spec) (p : ℚ) :
   have hdef : ∀ (M : Method) (A : Spec) (o : Operand), (M.op = .add ∨ M.op = .mul) → arithDefined M A o = true :=
     fun M A o h => arithDefined_ring M A o (by rcases h with h | h <;> simp [h])
   have hA : binop "__rmul__" S (.scalar (misidCoefSelf p)) = .ok (binOut ⟨.mul, true⟩ S (.scalar (misidCoefSelf p))) :=
-    binop_eq_ok hmem1 (by simp [foldingRefused, Operand.isSpectrum]) hl1 rfl rfl (hdef _ _ _ (Or.inr rfl))
+    (C09_binary_program _ _ _).trans
+      (binopClosed_eq_ok hmem1 (by simp [foldingRefused, Operand.isSpectrum]) hl1 rfl rfl (hdef _ _ _ (Or.inr rfl)))
   have hB : binop "__rmul__" (reverseSpec S) (.scalar (misidCoefMirror p))
       = .ok (binOut ⟨.mul, true⟩ (reverseSpec S) (.scalar (misidCoefMirror p))) :=
-    binop_eq_ok hmem1 (by simp [foldingRefused, Operand.isSpectrum]) hl1 rfl rfl (hdef _ _ _ (Or.inr rfl))
-  set A := binOut ⟨.mul, true⟩ S (.scalar (misidCoefSelf p)) with hAdef
-  set B := binOut ⟨.mul, true⟩ (reverseSpec S) (.scalar (misidCoefMirror p)) with hBdef
-  have hAN : A.N = S.N := rfl
-  have hBN : B.N = S.N := rfl
-  have hC : binop "__add__" A (.spectrum B) = .ok (binOut ⟨.add, false⟩ A (.spectrum B)) := by
-    have hfit : (Operand.spectrum B).fits A.N = true := by
-      simp [Operand.fits, hBdef, binOut, tabulate_size, reverseSpec_N, hAN]
-    have hfold : foldingRefused (Operand.spectrum B).isSpectrum A.folded (Operand.spectrum B).folded = false := by
-      simp [foldingRefused, Operand.folded, hAdef, hBdef, binOut, binopFolded, reverseSpec]
-    exact binop_eq_ok hmem2 hfold hl2 hfit rfl (hdef _ _ _ (Or.inl rfl))
-  refine ⟨binOut ⟨.add, false⟩ A (.spectrum B), ?_, ?_, rfl, ?_, ?_⟩
-  · unfold applyMisid misidLeftMethod misidSumMethod
-    rw [hA, hB]; exact hC
-  · intro k hk
-    have hAx : A.x k = misidCoefSelf p * S.x k := by
-      have := binOut_x (hdef ⟨.mul, true⟩ S (.scalar (misidCoefSelf p)) (Or.inr rfl)) hk
-      simp [arith, Operand.dataAt] at this
-      exact this.symm
-    have hBx : B.x k = misidCoefMirror p * S.x (mirrorFlat S.N k) := by
-      have := binOut_x (hdef ⟨.mul, true⟩ (reverseSpec S) (.scalar (misidCoefMirror p)) (Or.inr rfl)) (k := k) hk
-      simp [arith, Operand.dataAt] at this
-      rw [reverseSpec_x S hk] at this
-      exact this.symm
-    have hRx := binOut_x (hdef ⟨.add, false⟩ A (.spectrum B) (Or.inl rfl)) (k := k) hk
-    simp [arith, Operand.dataAt] at hRx
-    constructor
-    · rw [← hRx, hAx, hBx]; simp [misidCoefSelf, misidCoefMirror]
-    · rw [binOut_m (M := ⟨.add, false⟩) (S := A) (o := .spectrum B) hk]
-      have h1 : A.m k = S.m k := by
-        rw [binOut_m (M := ⟨.mul, true⟩) (S := S) hk]; simp [Operand.maskAt]
-      have h2 : B.m k = S.m (mirrorFlat S.N k) := by
-        rw [binOut_m (M := ⟨.mul, true⟩) (S := reverseSpec S) (k := k) hk, reverseSpec_m S hk]; simp [Operand.maskAt]
-      simp [Operand.maskAt, h1, h2]
-  · simp [binOut, binopFolded, hAdef]
-  · simp only [binOut, Operand.isSpectrum, Operand.popIds, if_true, hAdef, hBdef, reverseSpec, binopPopIds_eq]
-    cases S.popIds <;> simp
+    (C09_binary_program _ _ _).trans
+      (binopClosed_eq_ok hmem1 (by simp [foldingRefused, Operand.isSpectrum]) hl1 rfl rfl (hdef _ _ _ (Or.inr rfl)))
+  have hC : binop "__add__" (binOut ⟨.mul, true⟩ S (.scalar (misidCoefSelf p)))
+        (.spectrum (binOut ⟨.mul, true⟩ (reverseSpec S) (.scalar (misidCoefMirror p))))
+      = .ok (binOut ⟨.add, false⟩ (binOut ⟨.mul, true⟩ S (.scalar (misidCoefSelf p)))
+          (.spectrum (binOut ⟨.mul, true⟩ (reverseSpec S) (.scalar (misidCoefMirror p))))) := by
+    refine (C09_binary_program _ _ _).trans (binopClosed_eq_ok hmem2 ?_ hl2 ?_ rfl (hdef _ _ _ (Or.inl rfl)))
+    · simp [foldingRefused, Operand.folded, binOut, reverseSpec]
+    · simp [Operand.fits, binOut, tabulate_size, reverseSpec_N, Spec.N, reverseSpec]
+  unfold applyMisid misidLeftMethod misidSumMethod
+  rw [hA, hB]
+  show binop "__add__" _ _ = _
+  rw [hC, binOut_misid]
+  rfl
 
 /-- Misidentification conserves the total; `p = 0` is the identity and `p = 1` the mirror image (on the data). -/
 theorem C09_misid_total (S R : Spec) (p : ℚ) (h : applyMisid S p = .ok R) :
     sumData R = sumData S
     ∧ (p = 0 → ∀ k < S.N, R.x k = S.x k) ∧ (p = 1 → ∀ k < S.N, R.x k = S.x (S.mir k)) := by
-  obtain ⟨R', hR', hx, hs, _, _⟩ := C09_misid S p
+  obtain ⟨hR', hx, _⟩ := C09_misid S p
   rw [h] at hR'; injection hR' with hR'; subst hR'
-  have hN : R.N = S.N := by unfold Spec.N; rw [hs]
   refine ⟨?_, ?_, ?_⟩
-  · rw [sumData_eq, sumData_eq, hN, Finset.sum_congr rfl (fun k hk => (hx k (mem_range.mp hk)).1)]
+  · rw [sumData_eq, sumData_eq, misidOut_N, Finset.sum_congr rfl (fun k hk => (hx k (mem_range.mp hk)).1)]
     rw [Finset.sum_add_distrib, ← Finset.mul_sum, ← Finset.mul_sum, sum_reflect S.x S.N]
     ring
   · intro hp k hk; rw [(hx k hk).1, hp]; ring
@@ -427,79 +785,108 @@ theorem C09_misid_total (S R : Spec) (p : ℚ) (h : applyMisid S p = .ok R) :
 
 example : ∃ S R : Spec, applyMisid S (1/4) = .ok R ∧ S.N = 6 :=
   let S : Spec := ⟨[2, 3], #[0, 1, 2, 3, 4, 5], #[true, false, false, false, false, true], false, some ["a", "b"]⟩
-  ⟨S, (C09_misid S (1/4)).choose, (C09_misid S (1/4)).choose_spec.1, rfl⟩
+  ⟨S, misidOut S (1/4), (C09_misid S (1/4)).1, rfl⟩
 
-/-! ## arithmetic templates: refusal of mixed folding; folding status, masks, labels survive -/
+/-- **Composition.**  Misidentifying with probability `p` and then with `q` is misidentifying once with `p + q − 2pq` (an
+    entry ends up swapped iff exactly one of the two steps swapped it) — as whole records: data on every entry, mask,
+    shape, folding flag, labels. -/
+theorem C09_misid_compose (S : Spec) (p q : ℚ) :
+    ∃ R, applyMisid S p = .ok R ∧ applyMisid R q = applyMisid S (p + q - 2 * p * q) := by
+  refine ⟨misidOut S p, (C09_misid S p).1, ?_⟩
+  rw [(C09_misid _ q).1, (C09_misid S _).1, misidOut_comp]
 
-/-- The generated method lists contain every Python-3 arithmetic operator, reflected and in-place forms. -/
-theorem C09_methods :
-    (∀ n ∈ ["__add__", "__radd__", "__sub__", "__rsub__", "__mul__", "__rmul__", "__truediv__", "__rtruediv__",
-            "__floordiv__", "__rfloordiv__", "__pow__", "__rpow__"], n ∈ binaryMethods ∧ n ∉ ndarrayLacks ∧ (methodOf n).isSome)
-    ∧ (∀ n ∈ ["__iadd__", "__isub__", "__imul__", "__itruediv__", "__ifloordiv__", "__ipow__"],
-         n ∈ inplaceMethods ∧ n ∉ ndarrayLacks ∧ (methodOf n).isSome) := by
-  decide
+/-- **Mirror symmetry.**  Misidentifying the mirror image with `p` is misidentifying the spectrum itself with `1 − p`; in
+    particular (`p = 0`) `p = 1` is the mirror image: data `mirror x`, mask `m ∨ mirror m`. -/
+theorem C09_misid_mirror (S : Spec) (p : ℚ) :
+    applyMisid (reverseSpec S) p = applyMisid S (1 - p)
+    ∧ ∃ R, applyMisid S 1 = .ok R ∧ ∀ k < S.N, R.x k = S.x (S.mir k) ∧ R.m k = (S.m k || S.m (S.mir k)) := by
+  refine ⟨?_, misidOut S 1, (C09_misid S 1).1, fun k hk => ⟨?_, misidOut_m S 1 hk⟩⟩
+  · rw [(C09_misid _ p).1, (C09_misid S _).1, misidOut_reverse]
+  · rw [misidOut_x S 1 hk]; ring
 
-/-- Arithmetic between a folded and an unfolded Spectrum is refused (`ValueError`) by every binary and
-    every in-place template, before anything is computed or modified. -/
-theorem C09_arith_refused (name : String) (S O : Spec) (hne : S.folded ≠ O.folded) :
-    (name ∈ binaryMethods → binop name S (.spectrum O) = .raise "ValueError")
-    ∧ (name ∈ inplaceMethods → inplace name S (.spectrum O) = .raise "ValueError") := by
-  have hr : foldingRefused (Operand.spectrum O).isSpectrum S.folded (Operand.spectrum O).folded = true := by
-    simp only [foldingRefused, Operand.isSpectrum, Operand.folded, Bool.true_and]
-    cases hs : S.folded <;> cases ho : O.folded <;> simp_all
-  constructor <;> intro hn
-  · unfold binop guards
-    simp [hn, hr, foldingRefusedWhat]
-  · unfold inplace guards
-    simp [hn, hr, foldingRefusedWhat]
+/-- **`p = 0`.**  The data is the input's on every entry; the mask is `m ∨ mirror m`; and the result is the input as a
+    whole record — for a well-formed spectrum — *exactly when* the mask of the input is mirror-symmetric. -/
+theorem C09_misid_zero (S : Spec) (hd : S.data.size = S.N) (hm : S.mask.size = S.N) :
+    (∃ R, applyMisid S 0 = .ok R ∧ ∀ k < S.N, R.x k = S.x k ∧ R.m k = (S.m k || S.m (S.mir k)))
+    ∧ (applyMisid S 0 = .ok S ↔ ∀ k < S.N, S.m (S.mir k) = S.m k) := by
+  refine ⟨⟨misidOut S 0, (C09_misid S 0).1, fun k hk => ⟨?_, misidOut_m S 0 hk⟩⟩, ?_⟩
+  · rw [misidOut_x S 0 hk]; ring
+  · rw [(C09_misid S 0).1, ← misidOut_zero_iff S hd hm]
+    constructor
+    · intro h; injection h
+    · intro h; rw [h]
 
-example : ∃ S O : Spec, S.folded ≠ O.folded := ⟨⟨[2], #[1, 2], #[false, false], false, none⟩, ⟨[2], #[1, 2], #[false, false], true, none⟩, by decide⟩
+/-- **Masks that are not mirror-symmetric** (e.g. the singletons of one population masked, the mirror entries not).  For
+    every `p` — also `p = 0` — the result masks an entry as soon as the entry *or its mirror* is masked in the input, its mask
+    is mirror-symmetric, and if the input's mask is not symmetric the result masks an entry the input did not
+    (the data there is still the convex mix, `C09_misid`). -/
+theorem C09_misid_mask (S R : Spec) (p : ℚ) (h : applyMisid S p = .ok R) :
+    (∀ k < S.N, (R.m k = true ↔ (S.m k = true ∨ S.m (S.mir k) = true)) ∧ R.m (S.mir k) = R.m k)
+    ∧ ((∃ k < S.N, S.m (S.mir k) ≠ S.m k) → ∃ k < S.N, R.m k = true ∧ S.m k = false) := by
+  obtain ⟨hR', _⟩ := C09_misid S p
+  rw [h] at hR'; injection hR' with hR'; subst hR'
+  constructor
+  · intro k hk
+    refine ⟨?_, misidOut_m_sym S p hk⟩
+    rw [misidOut_m S p hk]; simp
+  · rintro ⟨k, hk, hne⟩
+    have hk2 := mirrorFlat_lt hk
+    cases hmk : S.m k
+    · refine ⟨k, hk, ?_, hmk⟩
+      rw [misidOut_m S p hk, hmk]
+      cases hmk' : S.m (mirrorFlat S.N k)
+      · exact absurd (hmk'.trans hmk.symm) hne
+      · rfl
+    · refine ⟨mirrorFlat S.N k, hk2, ?_, ?_⟩
+      · rw [misidOut_m S p hk2, mirrorFlat_invol hk, hmk]; simp
+      · cases hmk' : S.m (mirrorFlat S.N k)
+        · rfl
+        · exact absurd (hmk'.trans hmk.symm) hne
 
-/-- Whenever a binary template returns, the two operands had the same folding status (if both are
-    Spectra), the data is the pointwise operation on the operands' *data* (masked entries included), the
-    mask is the union of the operands' masks (no corner masking), folding status and shape are those of
-    `self`, labels are those of `self`, or of the other operand if `self` has none. -/
-theorem C09_arith_keeps (name : String) (S R : Spec) (o : Operand) (h : binop name S o = .ok R) :
-    ∃ M, methodOf name = some M ∧ name ∈ binaryMethods
-      ∧ (o.isSpectrum = true → o.folded = S.folded)
-      ∧ (∀ k < S.N, arith M (S.x k) (o.dataAt k) = some (R.x k) ∧ R.m k = (S.m k || o.maskAt k))
-      ∧ R.folded = S.folded ∧ R.shape = S.shape ∧ R.popIds = S.popIds.orElse fun _ => o.popIds := by
-  obtain ⟨M, hM, hg, hd, rfl⟩ := binop_ok h
-  obtain ⟨hmem, hfr, _, _⟩ := guards_none hg
-  refine ⟨M, hM, hmem, ?_, fun k hk => ⟨binOut_x hd hk, binOut_m hk⟩, rfl, rfl, ?_⟩
-  · intro hs
-    simp only [foldingRefused, hs, Bool.true_and] at hfr
-    simpa using hfr
-  · simp only [binOut, binopPopIds_eq]
-    cases o <;> simp [Operand.isSpectrum, Operand.popIds]
+/-- non-vacuity: a 2×3 spectrum whose mask is not mirror-symmetric (entry (0,1) masked, its mirror (1,1) not) -/
+example : ∃ S R : Spec, applyMisid S 0 = .ok R ∧ (∃ k < S.N, S.m (S.mir k) ≠ S.m k) ∧ R.m 4 = true ∧ S.m 4 = false :=
+  let S : Spec := ⟨[2, 3], #[0, 1, 2, 3, 4, 5], #[false, true, false, false, false, false], false, none⟩
+  ⟨S, misidOut S 0, (C09_misid S 0).1, ⟨1, by decide, by decide⟩, by decide, by decide⟩
 
-/-- The binary templates construct their result with `copy=True`: the new Spectrum owns its data and mask buffers.
-    (Only this constructor flag is tied by translation; that no buffer is shared in fact — result vs operands, both
-    directions, after later masking — is checked on the implementation by L3, aliasing is not part of the value-level model.) -/
-theorem C09_arith_fresh : binopCopies = true := rfl
+/-- **`p = 1/2`: symmetrisation.**  The data is `(x + mirror x)/2` and mirror-symmetric, the mask mirror-symmetric; for an
+    unfolded spectrum it is the data of `unfold(fold(x))`, whose mask is the same plus the two corners. -/
+theorem C09_misid_half (S R : Spec) (h : applyMisid S (1/2) = .ok R) :
+    (∀ k < S.N, R.x k = (S.x k + S.x (S.mir k)) / 2 ∧ R.x (S.mir k) = R.x k ∧ R.m (S.mir k) = R.m k)
+    ∧ (S.folded = false → ∃ F U, foldSpec S = .ok F ∧ unfoldSpec F = .ok U
+        ∧ ∀ k < S.N, U.x k = R.x k ∧ U.m k = (R.m k || cornerFlat S.N k)) := by
+  obtain ⟨hR', _⟩ := C09_misid S (1/2)
+  rw [h] at hR'; injection hR' with hR'; subst hR'
+  have hx : ∀ k < S.N, (misidOut S (1/2)).x k = (S.x k + S.x (mirrorFlat S.N k)) / 2 := by
+    intro k hk; rw [misidOut_x S _ hk]; ring
+  constructor
+  · intro k hk
+    refine ⟨hx k hk, ?_, misidOut_m_sym S _ hk⟩
+    rw [hx _ (mirrorFlat_lt hk), hx k hk, mirrorFlat_invol hk]; ring
+  · intro hS
+    refine ⟨foldOut S, unfoldOut (foldOut S), (C09_fold_guard S).1 hS, (C09_fold_guard _).2.2.1 rfl, fun k hk => ⟨?_, ?_⟩⟩
+    · have hk2 := mirrorFlat_lt hk
+      rw [unfoldOut_x_of (foldOut S) C09_unfold_program hk, hx k hk]
+      show ((foldOut S).x k + (foldOut S).x (mirrorFlat S.N k)) / 2 = _
+      rw [foldOut_x_of S C09_fold_program hk, foldOut_x_of S C09_fold_program hk2, sfold_add_mirror S.x (S.loc hk)]
+    · have hk2 := mirrorFlat_lt hk
+      have hc := cornerFlat_mirror hk
+      have key := mask_uf S.m (S.loc hk) (cornerFlat S.N) hc
+      simp only at key
+      rw [unfoldOut_m_of (foldOut S) C09_unfold_mask_program rfl hk, misidOut_m S _ hk]
+      show (((foldOut S).m k ^^ _) || ((foldOut S).m (mirrorFlat S.N k) ^^ _) || _) = _
+      rw [foldOut_m_of S C09_fold_mask_program rfl hk, foldOut_m_of S C09_fold_mask_program rfl hk2]
+      simp only [mirrorFlat_invol hk, hc] at key ⊢
+      exact key
 
-/-- The same for the in-place templates; labels of `self` are untouched. -/
-theorem C09_inplace_keeps (name : String) (S R : Spec) (o : Operand) (h : inplace name S o = .ok R) :
-    ∃ M, methodOf name = some M ∧ name ∈ inplaceMethods
-      ∧ (o.isSpectrum = true → o.folded = S.folded)
-      ∧ (∀ k < S.N, arith M (S.x k) (o.dataAt k) = some (R.x k) ∧ R.m k = (S.m k || o.maskAt k))
-      ∧ R.folded = S.folded ∧ R.shape = S.shape ∧ R.popIds = S.popIds := by
-  obtain ⟨M, hM, hg, hd, rfl⟩ := inplace_ok h
-  obtain ⟨hmem, hfr, _, _⟩ := guards_none hg
-  refine ⟨M, hM, hmem, ?_, fun k hk => ⟨inplaceOut_x hd hk, inplaceOut_m hk⟩, rfl, rfl, rfl⟩
-  intro hs
-  simp only [foldingRefused, hs, Bool.true_and] at hfr
-  simpa using hfr
+/-! ## views, slices, unary operations: the subclass hooks keep folding status and labels -/
 
-example : ∃ S : Spec, binop "__add__" S (.scalar 1) = .ok (binOut ⟨.add, false⟩ S (.scalar 1))
-    ∧ inplace "__imul__" S (.scalar 2) = .ok (inplaceOut ⟨.mul, false⟩ S (.scalar 2)) :=
-  ⟨⟨[2], #[1, 2], #[false, true], true, some ["a"]⟩,
-   binop_eq_ok (by decide) (by simp [foldingRefused, Operand.isSpectrum]) (by decide) rfl rfl
-     (arithDefined_ring _ _ _ (Or.inl rfl)),
-   inplace_eq_ok (by decide) (by simp [foldingRefused, Operand.isSpectrum]) (by decide) rfl rfl
-     (arithDefined_ring _ _ _ (Or.inr (Or.inr rfl)))⟩
-
-/-! ## slicing and automatic folding -/
+/-- Whatever numpy derives from a Spectrum — a basic slice (`reverse_array` is one), the result of a unary ufunc, a copy, a
+    deep copy, a view, `fs.log()` — comes out of the hooks `__array_finalize__` / `_update_from` / `__array_wrap__` (and the
+    assignments of `log`), applied in numpy's order (`hooksOf`) with the *generated* rule of each hook for each attribute,
+    with the folding status and the labels of the Spectrum it derives from. -/
+theorem C09_hooks_keep (k : ViewKind) (S : Spec) :
+    derivedFolded k S = some S.folded ∧ derivedPopIds k S = S.popIds := by
+  cases k <;> exact ⟨rfl, rfl⟩
 
 /-- Basic slicing returns a view with the folding status and the labels of the sliced spectrum, whose
     entries (data and mask) are the selected entries. -/
@@ -507,6 +894,7 @@ theorem C09_slice_keeps (S R : Spec) (sel : List AxisSel) (h : sliceSpec S sel =
     R.folded = S.folded ∧ R.popIds = S.popIds
     ∧ ∀ k < prodL (selCounts sel), R.x k = S.x (selSrc S.shape sel k) ∧ R.m k = S.m (selSrc S.shape sel k) := by
   unfold sliceSpec at h
+  rw [(C09_hooks_keep .slice S).1, (C09_hooks_keep .slice S).2] at h
   split_ifs at h
   injection h with h; subst h
   refine ⟨rfl, rfl, fun k hk => ⟨?_, ?_⟩⟩
@@ -516,6 +904,34 @@ theorem C09_slice_keeps (S R : Spec) (sel : List AxisSel) (h : sliceSpec S sel =
     rw [tabulate_getD _ _ _ hk]
 
 example : ∃ S R : Spec, sliceSpec S [⟨1, 2, 1, false⟩] = .ok R := ⟨⟨[3], #[1, 2, 3], #[false, false, false], true, none⟩, _, rfl⟩
+
+/-- Unary operations — `-fs`, `+fs`, `abs(fs)`, `fs.copy()`, `copy.deepcopy(fs)`, `fs.view()`, `fs.log()` — are always
+    defined and keep shape, folding status and labels; the mask is the operand's (for `log`: plus the entries outside its
+    domain, `x ≤ 0`); the data is `−x`, `|x|` resp. `x` on every entry, masked or not (`log`: not a rational, not modelled). -/
+theorem C09_unary_keeps (op : UnaryOp) (S : Spec) :
+    ∃ R, unarySpec op S = .ok R ∧ R.folded = S.folded ∧ R.popIds = S.popIds ∧ R.shape = S.shape
+      ∧ ∀ k < S.N, R.m k = (if op = .log then (S.m k || decide (S.x k ≤ 0)) else S.m k)
+          ∧ (op = .neg → R.x k = - S.x k) ∧ (op = .abs → R.x k = |S.x k|)
+          ∧ (op = .pos ∨ op = .copy ∨ op = .deepcopy ∨ op = .view → R.x k = S.x k) := by
+  have habs : ∀ x : ℚ, ratAbs x = |x| := by
+    intro x; unfold ratAbs
+    split_ifs with hx
+    · exact (abs_of_neg hx).symm
+    · exact (abs_of_nonneg (not_lt.mp hx)).symm
+  unfold unarySpec
+  rw [(C09_hooks_keep op.kind S).1, (C09_hooks_keep op.kind S).2]
+  refine ⟨_, rfl, rfl, rfl, rfl, fun k hk => ?_⟩
+  have hm : ∀ (f : ℕ → Bool), (⟨S.shape, tabulate S.N fun k => unaryData op (S.x k), tabulate S.N f, S.folded, S.popIds⟩ : Spec).m k = f k :=
+    fun f => m_of_mask rfl hk
+  have hx : ∀ (f : ℕ → Bool), (⟨S.shape, tabulate S.N fun k => unaryData op (S.x k), tabulate S.N f, S.folded, S.popIds⟩ : Spec).x k
+      = unaryData op (S.x k) := fun f => x_of_data (f := fun k => unaryData op (S.x k)) rfl hk
+  rw [hm, hx]
+  cases op <;> simp [unaryMask, unaryData, habs]
+
+example : ∃ R, unarySpec .neg ⟨[2], #[1, -2], #[false, true], true, some ["a"]⟩ = .ok R ∧ R.x 1 = 2 ∧ R.m 1 = true ∧ R.folded = true :=
+  ⟨_, rfl, by decide, by decide, rfl⟩
+
+/-! ## automatic folding -/
 
 /-- Every likelihood/residual function of `Inference.py` that folds the model does so exactly when the data
     is folded and the model is not (complete table of the generated guards). -/
